@@ -48,3 +48,11 @@ Proof.
   intros Hp Hnr. unfold actions. destruct recv_order_facts as [-> _]. rewrite Hp.
   destruct (rx_out (react default pdu h)) as [| |e]; try reflexivity.
 Qed.
+
+(* a PDU that was read reaches the hook also when the receiver is cancelled while handling it (structural fact read off the source;
+   the behaviour is validated against the real session by harness/C01.py receiver_cancelled sessions) *)
+Theorem read_pdu_survives_cancellation is_req ph : hook_calls_when_cancelled is_req ph = 1%nat.
+Proof.
+  unfold hook_calls_when_cancelled. assert (receiver_finishes_read_pdu = true) as -> by reflexivity.
+  assert (request_handling_cancel_guard = true) as -> by reflexivity. destruct ph, is_req; reflexivity.
+Qed.
